@@ -617,6 +617,27 @@ type c13Fact struct {
 	Use func(fn *ssa.Function, resp map[ssa.Value]bool, bind map[ssa.Value]int64) (edges []Edge, direct []ssa.Value)
 	// Instrs (optional): instructions whose execution establishes the fact (e.g. a store).
 	Instrs func(fn *ssa.Function, vals map[ssa.Value]bool) []ssa.Instruction
+	// Aux (optional): a second value set the fact relates vals to (e.g. the descriptor sizes a request length is
+	// compared with).  When a helper receives such a value as an argument, the parameter joins the set inside the
+	// helper; Use/Instrs read the set of the function under analysis from c13AuxOf(fn).
+	Aux func(fn *ssa.Function) map[ssa.Value]bool
+}
+
+// c13AuxInherited: per function, the parameters that received an Aux value at the call under analysis.
+var c13AuxInherited = map[*ssa.Function]map[ssa.Value]bool{}
+
+// c13AuxOf: the Aux set of fact in fn: its own plus what the call under analysis handed in.
+func c13AuxOf(fact c13Fact, fn *ssa.Function) map[ssa.Value]bool {
+	out := map[ssa.Value]bool{}
+	if fact.Aux != nil {
+		for v := range fact.Aux(fn) {
+			out[v] = true
+		}
+	}
+	for v := range c13AuxInherited[fn] {
+		out[v] = true
+	}
+	return out
 }
 
 var c13SummaryMemo = map[string]bool{}
@@ -676,6 +697,26 @@ func c13FactCutBound(fn *ssa.Function, resp map[ssa.Value]bool, bind map[ssa.Val
 		if h == fn {
 			continue
 		}
+		if fact.Aux != nil {
+			auxHere := c13AuxOf(fact, fn)
+			inh := map[ssa.Value]bool{}
+			for i, a := range call.Call.Args {
+				if auxHere[a] && i < len(h.Params) {
+					for x := range Aliases(h.Params[i]) {
+						inh[x] = true
+					}
+				}
+			}
+			prev, had := c13AuxInherited[h]
+			c13AuxInherited[h] = inh
+			defer func(h *ssa.Function, prev map[ssa.Value]bool, had bool) {
+				if had {
+					c13AuxInherited[h] = prev
+				} else {
+					delete(c13AuxInherited, h)
+				}
+			}(h, prev, had)
+		}
 		if rs := h.Signature.Results(); rs.Len() == 1 && types.Identical(rs.At(0).Type(), types.Typ[types.Bool]) {
 			// predicate helper: its true edge counts when every return that may be true passes the fact
 			if c13BoolHelperEstablishes(h, idxs[k], bind, fact, depth-1) {
@@ -729,6 +770,11 @@ func c13HelperEstablishesBound(h *ssa.Function, idx int, bind map[ssa.Value]int6
 	for i, p := range h.Params {
 		if v, ok := bind[p]; ok {
 			bk += fmt.Sprintf("%d=%d,", i, v)
+		}
+	}
+	for i, p := range h.Params {
+		if c13AuxInherited[h][p] {
+			bk += fmt.Sprintf("aux%d,", i)
 		}
 	}
 	key := fmt.Sprintf("%p|%d|%s|%d|%s", h, idx, fact.ID, depth, bk)
